@@ -173,6 +173,9 @@ def check_case(case):
     if case["kind"] == "chart":
         m, b = chart_case_model(tuple(case["order"]), case["notes_key"], case["pos"], case["notes_value"], tuple(case["kinds"]))
         return check_model(m, b)[0]
+    if case["kind"] == "scale":
+        label, model = X.scale_models("ssc", case.get("thorough", False))[case["index"]]
+        return H.check_roundtrip(model, X.build_object(model))[0]
     if case["kind"] == "history":
         model, mk = initial_states()[case["init"]]
         return H.replay_history(space(), model, mk(), case["ops"])
@@ -241,6 +244,29 @@ def explore_shard(acc, shard):
         _, init_name, first_op, depth = shard
         model, mk = initial_states()[init_name]
         H.bfs(acc, space(), "B edit histories", init_name, copy.deepcopy(model), mk, OPS, depth, first_op, prop="C02")
+    elif kind == "S":
+        _, part, nparts, thorough = shard
+        layer = "S scale"
+        case = None
+        for i, (label, model) in enumerate(X.scale_models("ssc", thorough)):
+            if i % nparts != part:
+                continue
+            case = {"kind": "scale", "index": i, "thorough": thorough, "label": label}
+            core.guard(acc, case)
+            fails, status = H.check_roundtrip(model, X.build_object(model))
+            acc.count("evaluations")
+            acc.count("states")
+            acc.count("transitions")
+            acc.count("nontrivial")
+            if status == "ok":
+                acc.count("roundtrips_checked")
+                acc.outcome("scale simfile")
+            else:
+                acc.count(status.split(":")[0])
+            for f in fails:
+                acc.violation(f["clause"], case, str(f["expected"])[:300], str(f["observed"])[:300], signature=("scale", f["clause"]))
+        if case:
+            acc.sample(layer, case)
     elif kind == "W":
         _, init_name = shard
         model, mk = initial_states()[init_name]
@@ -282,6 +308,8 @@ def explore(run):
     for name in initial_states():
         if "shortened" not in name:
             shards.append(("W", name))  # one long history per small initial state
+    for part in range(8):
+        shards.append(("S", part, 8, run.thorough()))
     k = run.seed % len(shards)
     shards = shards[k:] + shards[:k]
     run.merge(core.pmap(explore_shard, shards, run.seed))
@@ -300,11 +328,13 @@ def explore(run):
         f"B: breadth-first edit histories of depth <= {depth} (corpus states {depth - 1}, bare constructor 1) over {len(OPS)} operations + serialize from {len(initial_states())} initial states, state matching on content, order and string identity. "
         "Non-trivial = metacharacter value / any chart-alphabet case / state with a chart or None."
         + " W: from every small initial state one uninterrupted history on one live object in which every ordered pair of operations (incl. serialize) occurs consecutively (order-2 de Bruijn sequence, about 2000 steps), compared with the model after every step, round trip every 16 steps."
+        + " S: scale simfiles - one-line lists of 7..700 entries, each of : // \\ ; at every offset in a window before 4096 and 8192 (thorough 16384, 65536) in the first property, the note data and a description, 17 / 130 / 1100 charts, 400 properties."
     )
     run.assumptions = [
         "msdparser is the trusted tokenizer/escaper; escaping gaps are excluded operationally and counted",
         "a chart is in the domain when exactly one of NOTES/NOTES2 is present; other states are explored but not judged",
     ]
+    core.require(acc.outcomes["scale simfile"] > 0, "no scale simfile")
     core.require(acc.outcomes["long walk on one live object"] > 0, "no long walk")
     core.require(acc.c["roundtrips_checked"] > 1000, "too few round trips")
     core.require(acc.outcomes["value that is the same object as the note data"] > 0, "no aliasing case")
